@@ -2,6 +2,7 @@ package main
 
 import (
 	"fmt"
+	"go/ast"
 	"go/token"
 	"go/types"
 	"sort"
@@ -21,6 +22,10 @@ type FnResult struct {
 
 // VerifyFunction generates all obligations for fn against its contract (if any).
 func (e *Engine) VerifyFunction(fn *ssa.Function, safe bool) (res *FnResult) {
+	return e.VerifyFunctionFor(fn, safe, "")
+}
+
+func (e *Engine) VerifyFunctionFor(fn *ssa.Function, safe bool, prop string) (res *FnResult) {
 	res = &FnResult{Fn: fnName(fn)}
 	defer func() {
 		if r := recover(); r != nil {
@@ -36,10 +41,42 @@ func (e *Engine) VerifyFunction(fn *ssa.Function, safe bool) (res *FnResult) {
 	}
 	vc := NewVC(e, fn)
 	vc.safe = safe
+	vc.prop = prop
 	res.VC = vc
 	c := e.contracts[fnName(fn)]
 	if c != nil && c.SafeOn {
 		vc.safe = true
+	}
+	vc.countNames = map[string]bool{}
+	if c != nil {
+		collect := func(e ast.Expr) {
+			if e == nil {
+				return
+			}
+			ast.Inspect(e, func(n ast.Node) bool {
+				if ce, ok := n.(*ast.CallExpr); ok {
+					if id, ok := ce.Fun.(*ast.Ident); ok && id.Name == "calls" && len(ce.Args) == 1 {
+						vc.countNames[exprStr(ce.Args[0])] = true
+					}
+				}
+				return true
+			})
+		}
+		for _, cl := range c.Ensures {
+			collect(cl.Expr)
+		}
+		for _, sc := range c.Sites {
+			collect(sc.Expr)
+		}
+		for _, cls := range c.LoopInv {
+			for _, cl := range cls {
+				collect(cl.Expr)
+			}
+		}
+		// spec functions may hide calls(...): collect from all spec function bodies too
+		for _, sf := range e.specFuncs {
+			collect(sf.Body)
+		}
 	}
 	fr := vc.newFrame(fn, 0, "")
 	fr.isTop = true
@@ -90,6 +127,33 @@ func (e *Engine) VerifyFunction(fn *ssa.Function, safe bool) (res *FnResult) {
 			o.Cut = len(vc.assumes)
 		}
 	}
+	if c != nil && len(c.ModObj) > 0 {
+		vc.frameObj = map[string][]string{}
+		vc.frameWhole = map[string]bool{}
+		for m := range e.contractWholeMods(c).Maps {
+			vc.frameWhole[m] = true
+		}
+		for _, mo := range c.ModObj {
+			env := &Env{vc: vc, names: bind, heap: heap, old: heap, pkg: pkg}
+			ov, err := env.eval(mo.Expr)
+			if err != nil {
+				vc.specError(fn, &Clause{Src: mo.Src, File: c.File, Line: c.Line}, err)
+				continue
+			}
+			obj := ov.T
+			if ov.Typ != nil {
+				if _, isSlice := ov.Typ.Underlying().(*types.Slice); isSlice {
+					obj = sApp("s-arr", ov.T)
+				}
+			}
+			for _, n := range e.resolveModName(c.Pkg, mo.Field) {
+				if _, ok := vc.mapSorts[n]; !ok {
+					e.declareMapByName(vc, n)
+				}
+				vc.frameObj[n] = append(vc.frameObj[n], obj)
+			}
+		}
+	}
 	fr.oldHeap = heap.clone()
 	fr.run(args, "true", heap)
 	res.Instrs = 20000 - vc.budget
@@ -98,6 +162,10 @@ func (e *Engine) VerifyFunction(fn *ssa.Function, safe bool) (res *FnResult) {
 		for ri, r := range fr.rets {
 			for i, cl := range c.Ensures {
 				env := &Env{vc: vc, names: bind, heap: r.heap, old: fr.oldHeap, pkg: pkg, result: r.val, reach: r.reach}
+				env.fr = fr
+				env.at = fn.Blocks[r.block]
+				env.atEnd = true
+				env.sec = fr.secHeap
 				t, err := env.evalBool(cl.Expr)
 				if err != nil {
 					vc.specError(fn, cl, err)
@@ -122,10 +190,24 @@ func (e *Engine) VerifyFunction(fn *ssa.Function, safe bool) (res *FnResult) {
 			actual := e.bodyMods(fn)
 			var extra []string
 			if actual.All {
-				extra = append(extra, "<all: dynamic call>")
+				if len(e.universe) == 0 {
+					extra = append(extra, "<all: dynamic call without a frame>")
+				}
+				for _, u := range e.uncovered(actual.Except) {
+					// a dynamic callee may modify every map under this prefix: all of them must be declared
+					if !strings.HasPrefix(u, "F_") {
+						extra = append(extra, "<dynamic callee may modify "+u+"*>")
+						continue
+					}
+					for _, fm := range e.allFieldMaps() {
+						if strings.HasPrefix(fm, u) && !declared.Maps[fm] {
+							extra = append(extra, fm+"(dynamic callee)")
+						}
+					}
+				}
 			}
 			for _, m := range actual.list() {
-				if !declared.Maps[m] && !isLocalOnlyMap(m) {
+				if !declared.Maps[m] && !isLocalOnlyMap(m) && e.inUniverse(m) {
 					extra = append(extra, m)
 				}
 			}
